@@ -199,6 +199,7 @@ def run(repo, rep, tier):
                             % (cname, ', '.join(params)))
     if nsites < 90:
         raise AnalysisError('only %d construction sites found' % nsites)
+    _r3_sequences(repo, rep, D, W, cons, byclass)
     # ---- R4 ---------------------------------------------------------------
     conn = repo.cls(OPS, 'WBEMConnection')
     spec = {'_imethodcall': ('CIMMethod', 'IMETHODCALL', 'namespace'),
@@ -396,3 +397,156 @@ def _top_particles(model):
             cur += ch
     parts.append(cur)
     return [p.strip() for p in parts if p.strip()]
+
+
+def _r3_sequences(repo, rep, D, W, cons, byclass):
+    """R3b: the child sequence each construction site can produce is in the
+    language of the DTD content model (order, multiplicity); R3c: a list
+    passed for a NAME+ model is non-empty by construction."""
+    from .. import xmlseq as Q
+    r3b = rep.rule('C03.R3b', 'child sequences of construction sites are in '
+                   'the content model (order and multiplicity)')
+    r3c = rep.rule('C03.R3c', 'lists for NAME+ content models are non-empty '
+                   'by construction; sibling constructions agree')
+    es = Q.ElemSets(repo, byclass)
+    orders = {}
+    for cname, w in byclass.items():
+        orders[cname] = Q.writer_order(w)
+    funcs = {}
+    for m in repo.modules.values():
+        for f in m.all_funcs():
+            funcs[(m.relpath, f.qualname)] = f
+    decided = 0
+    plus_sites = {}
+    for cname, sites in sorted(cons.items()):
+        w = byclass.get(cname)
+        if w is None:
+            continue
+        e = w.element
+        if e not in D.elements:
+            continue
+        rx_ = Q.model_regex(D, e)
+        order = orders[cname]
+        params = [p for p in w.init.params if p != 'self']
+        plus = Q.min_one_params(D, e)
+        for path, fq, line, call in sites:
+            f = funcs.get((path, fq))
+            if f is None:
+                continue
+            argmap = {}
+            for i, a in enumerate(call.args):
+                if i < len(params):
+                    argmap[params[i]] = a
+            for k in call.keywords:
+                if k.arg:
+                    argmap[k.arg] = k.value
+            # ---- R3c ----
+            if plus is not None and order and len(order) == 1:
+                a = argmap.get(order[0][0])
+                r3c.sites += 1
+                verdict = Q.nonempty_by_construction(a, f) \
+                    if a is not None else 'no'
+                plus_sites.setdefault(e, []).append((path, fq, a, call))
+                r3c.ob(verdict != 'no', '%s|%s|%s' % (fq, e, norm(call, 60)),
+                       {'site': fq, 'element': e, 'model': D.elements[e],
+                        'list': norm(a, 80) if a is not None else None,
+                        'nonempty': verdict})
+                if verdict == 'no':
+                    rep.finding(r3c, fq, norm(call, 90), 'may-be-empty', path,
+                                line, '<%s> requires at least one <%s> child '
+                                '(%s) but the list %s can be empty (filtered '
+                                'comprehension / empty literal): the request '
+                                'is not DTD-valid for such input'
+                                % (e, plus, D.elements[e],
+                                   norm(a, 80) if a is not None else
+                                   '(missing)'))
+                elif verdict == 'unknown':
+                    r3c.undecided.append('%s: %s' % (fq, norm(a, 60)))
+            # ---- R3b ----
+            if rx_ is None or order is None:
+                continue
+            r3b.sites += 1
+            groups = []
+            unknown = None
+            correlated = False
+            for pname, mult in order:
+                a = argmap.get(pname)
+                if a is None:
+                    dflt = w.init.param_defaults().get(pname)
+                    if dflt is None:
+                        unknown = pname
+                        break
+                    a = dflt
+                es.state_dependent = False
+                s_ = es.elems(a, f, {}, use=call)
+                if s_ is None:
+                    unknown = pname
+                    break
+                ne = mult == 'many' and \
+                    Q.nonempty_by_construction(a, f) == 'yes'
+                if es.state_dependent and mult != 'many':
+                    correlated = True
+                groups.append((s_, mult, ne))
+            if unknown is not None:
+                r3b.undecided.append('%s: %s(%s=...) element kind not '
+                                     'evident' % (fq, cname, unknown))
+                continue
+            seqs = Q.sequences(groups)
+            if seqs is None:
+                r3b.undecided.append('%s: %s too many combinations'
+                                     % (fq, cname))
+                continue
+            decided += 1
+            badseq = [q for q in seqs
+                      if not rx_.fullmatch(''.join(x + ',' for x in q))]
+            if badseq and correlated and len(badseq) < len(seqs):
+                # the alternatives of a single child depend on the state of
+                # the receiver, which the enclosing conditions test: not
+                # decidable without path sensitivity
+                r3b.undecided.append(
+                    '%s: %s child kind depends on receiver state (%d of %d '
+                    'combinations fit)' % (fq, cname, len(seqs) - len(badseq),
+                                           len(seqs)))
+                continue
+            r3b.ob(not badseq, '%s|%s|%s' % (fq, cname, norm(call, 50)),
+                   {'site': fq, 'element': e, 'model': D.elements[e],
+                    'child_groups': [(p_, m_, sorted(g_[0])) for (p_, m_), g_
+                                     in zip(order, groups)],
+                    'sequences_checked': len(seqs)})
+            if badseq:
+                rep.finding(r3b, fq, norm(call, 90), 'child-sequence', path,
+                            line, '<%s> children can be %s which the content '
+                            'model %s does not allow (constructor appends %s '
+                            'in this order)'
+                            % (e, list(badseq[0]), D.elements[e],
+                               [p_ for p_, _ in order]))
+    if decided < 25:
+        raise AnalysisError('only %d construction sites with evident child '
+                            'kinds (C03.R3b would be vacuous)' % decided)
+    # sibling agreement of the NAME+ constructions (one idiom, several copies)
+    for e, sites in plus_sites.items():
+        forms = {}
+        for path, fq, a, call in sites:
+            if isinstance(a, ast.ListComp):
+                g = a.generators[0]
+                src = g.iter
+                shape = (norm(a.elt), bool(g.ifs),
+                         norm(src.func.attr) if isinstance(src, ast.Call) and
+                         isinstance(src.func, ast.Attribute) else norm(src),
+                         tuple(norm(x) for x in src.args)
+                         if isinstance(src, ast.Call) else ())
+                forms.setdefault(shape, []).append((path, fq, call))
+        if len(forms) > 1:
+            major = max(forms.values(), key=len)
+            for shape, ss in forms.items():
+                if ss is major:
+                    continue
+                for path, fq, call in ss:
+                    rep.finding(r3c, fq, norm(call, 90), 'sibling-differs',
+                                path, call.lineno,
+                                'the <%s> child list is built differently '
+                                'here (%s) than at the %d sibling site(s): '
+                                'the same namespace would be serialised '
+                                'differently' % (e, shape, len(major)))
+        r3c.ob(len(forms) <= 1, e + ':siblings',
+               {'element': e, 'sites': len(sites), 'forms': len(forms)})
